@@ -224,6 +224,13 @@ def run_lmplz(lmplz, case, scratch, idx=0, keep=False):
     inter = base + ".inter" if case.intermediate else None
     cmd = ["timeout", "60", lmplz] + case.argv(text, arpa, scratch, limit_file, inter)
     rc, out, err = vlib.sh(cmd, timeout=90)
+    if rc in (126, 127) and "failed to run command" in err:
+        # the binary is being relinked by a concurrent build of the repository: not an observation about lmplz
+        import time
+        time.sleep(3)
+        rc, out, err = vlib.sh(cmd, timeout=90)
+        if rc in (126, 127) and "failed to run command" in err:
+            raise vlib.InfraError("cannot execute %s: %s" % (lmplz, err.strip()[-200:]))
     r = Run()
     r.rc, r.err, r.cmd = rc, err, cmd
     r.refused = None
